@@ -6,13 +6,17 @@
 //!   attrname <hex utf8> <hex utf8 value> <enc> <doc>  Element::set_attribute on document <doc>
 //!   tagname <hex utf8> <enc> <doc>                    Element::set_tag_name on document <doc>
 //!
+//!   attrseq <enc> <hex utf8 name> <hex of the lower-cased name in <enc>> <hex source attr name|-> <hex v1> <hex v2>
+//!                                                     two `set_attribute(name, v)` calls on `<a>` / `<a SRC=0>`; enc also sjis|big5|gbk
+//!                                                     (finding F22: case-insensitive comparison on ENCODED bytes)
+//!
 //! Observation: `<kind> <result> <hex of the serialised output>` (diffed with the Lean model).
 //! Oracle (independent of the model): the output is re-tokenised with lol-html itself (a second
 //! rewriter with observers) and with html5ever's tokenizer; the token structure must be the original
 //! plus exactly the inserted piece, and a rejected input must leave the output equal to the input.
 //! Violations are appended as ` ||ORACLE:C08:<site-tag> ...`.
 use crate::util::*;
-use encoding_rs::{Encoding, UTF_8, X_USER_DEFINED};
+use encoding_rs::{BIG5, Encoding, GBK, SHIFT_JIS, UTF_8, X_USER_DEFINED};
 use lol_html::errors::{AttributeNameError, CommentTextError, TagNameError};
 use lol_html::html_content::ContentType;
 use lol_html::{AsciiCompatibleEncoding, HtmlRewriter, Settings, doc_comments, doc_text, element};
@@ -32,6 +36,9 @@ fn enc_of(s: &str) -> Option<&'static Encoding> {
     match s {
         "utf8" => Some(UTF_8),
         "xud" => Some(X_USER_DEFINED),
+        "sjis" => Some(SHIFT_JIS),
+        "big5" => Some(BIG5),
+        "gbk" => Some(GBK),
         _ => None,
     }
 }
@@ -390,6 +397,107 @@ pub fn run(line: &str) -> String {
                     }
                 }
                 fl.check("attrname-h5e", &Ok(got), &[Tok::Start { name: "a".into(), attrs: want_h5, sc }]);
+            } else if out != doc {
+                fl.add("attrname-unchanged", format!("rejected set_attribute changed the output to {}", to_hex(&out)));
+            }
+            fl.fin(obs)
+        }
+        ["attrseq", e, h, hl, hs, hv1, hv2] => {
+            let (Some(enc), Some(b), Some(bl), Some(bs), Some(b1), Some(b2)) =
+                (enc_of(e), of_hex(h), of_hex(hl), if *hs == "-" { Some(vec![]) } else { of_hex(hs) }, of_hex(hv1), of_hex(hv2))
+            else {
+                return "bad-case".into();
+            };
+            let (Ok(n), Ok(v1), Ok(v2)) = (String::from_utf8(b), String::from_utf8(b1), String::from_utf8(b2)) else {
+                return "bad-utf8".into();
+            };
+            // the generator supplies the encoding of the lower-cased name (the model has no table for
+            // these encodings); it must be what encoding_rs produces
+            let ln = lower(&n);
+            let (encd, _, had_err) = enc.encode(&ln);
+            if had_err || encd.as_ref() != bl.as_slice() {
+                return "bad-case-encoding".into();
+            }
+            let has_src = *hs != "-";
+            let mut doc = b"<a".to_vec();
+            if has_src {
+                doc.push(b' ');
+                doc.extend_from_slice(&bs);
+                doc.extend_from_slice(b"=0");
+            }
+            doc.push(b'>');
+            let has_upper = bl.iter().any(|c| c.is_ascii_uppercase());
+            type R = Option<Result<(), AttributeNameError>>;
+            let res: Rc<RefCell<(R, R)>> = Rc::new(RefCell::new((None, None)));
+            let (r2, n2, v1c, v2c, docc) = (res.clone(), n.clone(), v1.clone(), v2.clone(), doc.clone());
+            let caught = std::panic::catch_unwind(std::panic::AssertUnwindSafe(move || {
+                rewrite(
+                    &docc,
+                    enc,
+                    Settings::new().append_element_content_handler(element!("a", move |el| {
+                        r2.borrow_mut().0 = Some(el.set_attribute(&n2, &v1c));
+                        r2.borrow_mut().1 = Some(el.set_attribute(&n2, &v2c));
+                        Ok(())
+                    })),
+                )
+            }));
+            const TAG: &str = "F22-multibyte-name-ascii-case";
+            let out = match caught {
+                Err(p) => {
+                    let msg = p
+                        .downcast_ref::<String>()
+                        .cloned()
+                        .or_else(|| p.downcast_ref::<&str>().map(|s| s.to_string()))
+                        .unwrap_or_default();
+                    let mut line = "attrseq f22 PANIC".to_string();
+                    fl.add(
+                        if has_upper { TAG } else { "attrseq-panic" },
+                        format!("debug build panics in set_attribute({n:?}) [{} name bytes {}]: {}", enc.name(), to_hex(&bl), msg.replace('\n', " ")),
+                    );
+                    line = fl.fin(line);
+                    return line;
+                }
+                Ok(Err(e)) => return format!("attrseq rewrite-error {e}"),
+                Ok(Ok(o)) => o,
+            };
+            let show = |r: &R| match r {
+                Some(Ok(())) => "ok".to_string(),
+                Some(Err(AttributeNameError::Empty)) => "err:empty".into(),
+                Some(Err(AttributeNameError::ForbiddenCharacter(c))) => format!("err:forbidden:{:02x}", *c as u32),
+                Some(Err(AttributeNameError::UnencodableCharacter)) => "err:unencodable".into(),
+                None => "not-called".into(),
+            };
+            let (ra, rb) = {
+                let r = res.borrow();
+                (show(&r.0), show(&r.1))
+            };
+            // shape of F22: the validated (lower-cased, encoded) name has a byte in A..Z and
+            // eq_case_insensitive is called (always the case at the second call once the first succeeded)
+            let shape = has_upper && ra == "ok";
+            let obs = format!("attrseq {}{ra} {rb} {}", if shape { "f22 " } else { "" }, hex_or_dash(&out));
+            // expected attribute list, computed on characters
+            let mut want: Vec<(String, String)> = vec![];
+            if has_src {
+                want.push((lower(&enc.decode_without_bom_handling(&bs).0), "0".into()));
+            }
+            for (r, v) in [(&ra, &v1), (&rb, &v2)] {
+                if r == "ok" {
+                    match want.iter().position(|(a, _)| *a == ln) {
+                        Some(i) => want[i].1 = norm(v, true),
+                        None => want.push((norm(&ln, true), norm(v, true))),
+                    }
+                }
+            }
+            if ra == "ok" || rb == "ok" {
+                let got = h5e_tokens(&out, enc);
+                let wanted = [Tok::Start { name: "a".into(), attrs: want, sc: false }];
+                if got.as_slice() != wanted {
+                    let multibyte = !std::ptr::eq(enc, UTF_8) && !std::ptr::eq(enc, X_USER_DEFINED);
+                    fl.add(
+                        if multibyte { TAG } else { "attrseq-h5e" },
+                        format!("after set_attribute({n:?},{v1:?}); set_attribute({n:?},{v2:?}) in {}: got {got:?} want {wanted:?}", enc.name()),
+                    );
+                }
             } else if out != doc {
                 fl.add("attrname-unchanged", format!("rejected set_attribute changed the output to {}", to_hex(&out)));
             }
